@@ -779,6 +779,19 @@ CORPUS = [
     "counts int[3] = \"[0, 1, 2]\"       # arrays with whitespaces\nanswers bool[2] = \"[true, false]\"\nnames str[2] = '[\"Jolana\", \"Anastasia\"]'",
     "u uint64 = 29349850209348495020394849\nl int64 = -239490304\nf float128 = -239490304\ng float32 = 1",
     "data float[2:,:2] = [[25,50],[34.2,95.1],[1e3,1e4]] kg",
+    # instances of the text-level array theorems (C13_int/float/str_array_text, depth 3, every element kind)
+    "m int[2,2,2] = [[[1,-2],[3,4]],[[5,6],[7,80]]] m   # depth 3",
+    "f float32[2,2] = [[1.5,-2e3],[3E-2,4]] kg",
+    'names str[2,1] = [["ab"],["c"]]   # strings',
+    "flags bool[3] = [true,false,true]",
+    "big int[:,1] = [[9223372036854775807],[-9223372036854775808]]",
+    # instances of C13_literal_roundtrip_escaped_sq / C13_modify_roundtrip_escaped
+    'a str = \'x\'\na = "say \\"hi\\""\nb str = \'it\\\'s # not\'  # c\nb   =  \'\\\'t is\' # c',
+    # instances of C13_directive_lines_lexed
+    "a int = 1\n   !constant   # frozen\nb int = 2", "  $unit length = 1 m\na int = 1",
+    "a int = 1\n    $unit\tmass = 2 kg # c\nb int = 2",
+    # instances of the scalar text-level theorems (C13_int/float/bool_scalar_text, C13_str_quoted_text)
+    'i uint16 =  +0034 m  # c\nf float128   = -1.5E-3 s\ng float = .5\nh float = 5.\ns str = "x # y z" # c\nb bool = false#c',
 ]
 MALFORMED = [
     "a int = 1.5", "a bool = True", "a int[2] = [1,2,3]", "a int[2] = [[1,2],[3]]", "a int = ", "a int = # c", "a boolean = true",
@@ -787,6 +800,9 @@ MALFORMED = [
     't table = """\nx int\n\n1 2\n"""', 't table = """\nx int # c\n\n1\n"""', 't table = """\n x int\n\n1\n"""', "a int = [1,2]",
     "a float = 1e", "a float = .", "a int = -", "a int[2] = [1,]", "a int[1] = [01]", "a float[1] = [+1]", "a float[1] = [.5]",
     "a str[1] = [x]", "a int\n", "a float m", "a int = 1\n  !constant\na = 2",
+    # instances of C13_ragged_array_rejected (first item of another shape, anything after it)
+    "a int[2,2] = [[1,2],[3],[4,5]]", "a int[2] = [[1],2]", 'a str[2] = [["a"],"b"]', "a float[2,2] = [[1,2],[3,[4]]]",
+    "a int[2,2] = [[1,2],3,x]", "a int[1] = [9223372036854775808]",
 ]
 
 
